@@ -4,6 +4,7 @@ Property theorems about `Num.fmtNumber` (model of `impl Display for Formatted<Nu
 Parametric theorems hold for EVERY `NumOps` carrier, hence for whatever f64 does.
 -/
 import RsassModel.Num.Format
+import RsassModel.Num.FormatLemmasShape
 namespace C10
 open Num NumOps
 
@@ -160,5 +161,204 @@ theorem fmt_expanded_keeps_whole (q : FmtQuirks) (p : Nat) (s : α)
   refine ⟨if signBit s = true ∧ ((!isZero whole) = true ∨ (!dec.isEmpty) = true) then "-" else "",
     if dec.isEmpty = true then "" else "." ++ showDigits dec, ?_⟩
   simp
+
+/-! ## Exact-rational instance: the rounding clause
+
+`NumOps ℚ` (`Num/RatInst.lean`) gives every operation of the formatter its mathematical
+meaning.  `printedAbs (dec, whole) = whole + Σ decᵢ/10^(i+1)` is the magnitude the text
+denotes (`fmt_text_shape`, `fmt_whole_denotes`).  Helper lemmas (digit-loop invariant,
+final digit, carry, zero stripping): `Num/FormatLemmas*.lean`. -/
+
+/-- On the repaired model and the code as it is coincide as soon as one decimal is
+allowed — for every carrier. -/
+theorem asis_eq_spec_partial (p : Nat) (s : α)
+    (h : 1 ≤ min (16 - log10ceil (truncAbs s)) p) :
+    fracDigits fmtAsIs p s = fracDigits fmtSpec p s := by
+  have h0 : (min (16 - log10ceil (truncAbs s)) p == 0) = false := by
+    simp only [beq_eq_false_iff_ne, ne_eq]; omega
+  unfold fracDigits
+  simp [fmtAsIs, fmtSpec, h0]
+
+/-- HEADLINE (specification model, every rational `x`, every precision `p`).  With
+`k = min (16 - ⌈log10 ⌊|x|⌋⌉) p` decimals allowed, the printed magnitude is within half a
+unit of the `k`-th decimal place of `|x|`, and an exact tie is rounded away from zero. -/
+theorem fmt_correctly_rounded (p : Nat) (x : ℚ) :
+    |printedAbs (fracDigits fmtSpec p x) - (|x|)|
+        ≤ 1 / (2 * 10 ^ (min (16 - log10ceil (truncAbs x)) p)) ∧
+      (|printedAbs (fracDigits fmtSpec p x) - (|x|)|
+          = 1 / (2 * 10 ^ (min (16 - log10ceil (truncAbs x)) p)) →
+        |x| < printedAbs (fracDigits fmtSpec p x)) := by
+  obtain ⟨h1, h2⟩ := fracDigits_interval fmtSpec p x (Or.inl rfl)
+  simp only [decimalsOf] at h1 h2
+  refine ⟨abs_le.mpr ⟨le_of_lt h1, h2⟩, ?_⟩
+  intro he
+  rcases abs_cases (printedAbs (fracDigits fmtSpec p x) - |x|) with ⟨ha, _⟩ | ⟨ha, _⟩
+  · rw [ha] at he
+    have : (0 : ℚ) < 1 / (2 * 10 ^ (min (16 - log10ceil (truncAbs x)) p)) := by positivity
+    linarith
+  · rw [ha] at he; linarith
+
+/-- CLOSED FORM (specification model): the printed magnitude IS `|x|` rounded half away
+from zero at `k` places, `⌊|x|·10^k + ½⌋ / 10^k`.  Together with `spec_frac_len` (at most
+`k` digits) this determines the fractional digits completely. -/
+theorem fmt_round_exact (p : Nat) (x : ℚ) :
+    printedAbs (fracDigits fmtSpec p x)
+      = (⌊|x| * 10 ^ (min (16 - log10ceil (truncAbs x)) p) + 1 / 2⌋ : ℤ)
+          / 10 ^ (min (16 - log10ceil (truncAbs x)) p) := by
+  obtain ⟨h1, h2⟩ := fracDigits_interval fmtSpec p x (Or.inl rfl)
+  simp only [decimalsOf] at h1 h2
+  obtain ⟨m, hm⟩ := printedAbs_scaled fmtSpec p x _ (spec_frac_len p x)
+  exact round_exact_of_interval _ _ _ m hm h1 h2
+
+/-- PARTIAL (code as it is): correctly rounded whenever at least one decimal is allowed. -/
+theorem asis_correctly_rounded_partial (p : Nat) (x : ℚ)
+    (h : 1 ≤ min (16 - log10ceil (truncAbs x)) p) :
+    |printedAbs (fracDigits fmtAsIs p x) - (|x|)|
+        ≤ 1 / (2 * 10 ^ (min (16 - log10ceil (truncAbs x)) p)) ∧
+      (|printedAbs (fracDigits fmtAsIs p x) - (|x|)|
+          = 1 / (2 * 10 ^ (min (16 - log10ceil (truncAbs x)) p)) →
+        |x| < printedAbs (fracDigits fmtAsIs p x)) := by
+  rw [asis_eq_spec_partial p x h]; exact fmt_correctly_rounded p x
+
+theorem asis_round_exact_partial (p : Nat) (x : ℚ)
+    (h : 1 ≤ min (16 - log10ceil (truncAbs x)) p) :
+    printedAbs (fracDigits fmtAsIs p x)
+      = (⌊|x| * 10 ^ (min (16 - log10ceil (truncAbs x)) p) + 1 / 2⌋ : ℤ)
+          / 10 ^ (min (16 - log10ceil (truncAbs x)) p) := by
+  rw [asis_eq_spec_partial p x h]; exact fmt_round_exact p x
+
+/-- the hypothesis of the partial theorems is met by a non-trivial input: `-1234.5678`
+at precision 3 has `k = 3`, and the carry/rounding path is exercised (`.5678 → .568`). -/
+example : 1 ≤ min (16 - log10ceil (truncAbs (-12345678 / 10000 : ℚ))) 3 ∧
+    fracDigits fmtAsIs 3 (-12345678 / 10000 : ℚ) = ([5, 6, 8], 1234) := by decide +kernel
+
+/-- REFUTATION of the full statement for the code as it is (deviation
+`precisionZeroOneDigit`, precision 0): `1/2` must print as `1` (`⌊½ + ½⌋`), the as-is
+model prints the digit `5` after an integer part `0`, i.e. `0.5`. -/
+theorem asis_precision0_witness :
+    fracDigits fmtAsIs 0 (1 / 2 : ℚ) = ([5], 0) ∧ fracDigits fmtSpec 0 (1 / 2 : ℚ) = ([], 1) := by
+  decide +kernel
+
+theorem asis_round_exact_refuted :
+    ¬ (printedAbs (fracDigits fmtAsIs 0 (1 / 2 : ℚ))
+        = (⌊|(1 / 2 : ℚ)| * 10 ^ (min (16 - log10ceil (truncAbs (1 / 2 : ℚ))) 0) + 1 / 2⌋ : ℤ)
+            / 10 ^ (min (16 - log10ceil (truncAbs (1 / 2 : ℚ))) 0)) := by
+  rw [asis_precision0_witness.1]
+  norm_num [printedAbs, fracVal]
+
+/-- … and the digit-count clause fails on the same witness (one digit where none is allowed). -/
+theorem asis_frac_len_refuted :
+    ¬ ((fracDigits fmtAsIs 0 (1 / 2 : ℚ)).1.length
+        ≤ min (16 - log10ceil (truncAbs (1 / 2 : ℚ))) 0) := by
+  decide +kernel
+
+/-! ## Shape of the text (exact instance; repaired model and code as it is alike) -/
+
+/-- No trailing fractional zero: the last fractional digit printed is not `0`. -/
+theorem fmt_no_trailing_zero (q : FmtQuirks) (p : Nat) (x : ℚ) :
+    (fracDigits q p x).1.getLast? ≠ some 0 :=
+  (noTrailingZero_iff _).mp (fracDigits_shape q p x).1
+
+/-- The character list of the text: an optional leading `-`, the decimal digits of the
+integer part (omitted only for a zero integer part in compressed style when fractional
+digits follow), and — only if there are fractional digits — one `.` followed by them.
+Every digit is `< 10`.  Hence plain decimal notation: no exponent, at most one `.`. -/
+theorem fmt_text_shape (q : FmtQuirks) (c : Bool) (p : Nat) (x : ℚ) :
+    ∃ (neg : Bool) (ws : List Nat),
+      (fmtNumber q c p x).toList =
+        (if neg then ['-'] else []) ++ ws.map digitChar ++
+          (if (fracDigits q p x).1 = [] then [] else '.' :: (fracDigits q p x).1.map digitChar) ∧
+      (ws = showWhole (fracDigits q p x).2 ∨
+        (ws = [] ∧ c = true ∧ (fracDigits q p x).2 = 0 ∧ (fracDigits q p x).1 ≠ [])) ∧
+      (∀ d ∈ ws, d < 10) ∧ (∀ d ∈ (fracDigits q p x).1, d < 10) := by
+  obtain ⟨w, hw⟩ := fracDigits_whole_nat q p x
+  have hwd : ∀ d ∈ showWhole (fracDigits q p x).2, d < 10 := by
+    rw [hw, showWhole_natCast]; exact (decDigits_spec w).1
+  refine ⟨decide (signBit x ∧ (!isZero (fracDigits q p x).2 ∨ !(fracDigits q p x).1.isEmpty)),
+    if isZero (fracDigits q p x).2 ∧ c ∧ !(fracDigits q p x).1.isEmpty then []
+      else showWhole (fracDigits q p x).2, ?_, ?_, ?_, (fracDigits_shape q p x).2⟩
+  · rw [fmtNumber_toList]
+    congr 1
+    · congr 1
+      · simp
+      · split <;> rfl
+    · cases (fracDigits q p x).1 <;> simp
+  · split
+    · rename_i h
+      right
+      refine ⟨rfl, h.2.1, (isZero_iff _).mp h.1, ?_⟩
+      intro h0; rw [h0] at h; simp at h
+    · exact Or.inl rfl
+  · split
+    · simp
+    · exact hwd
+
+/-- Every printed character is `-`, `.` or a decimal digit. -/
+theorem fmt_digits_lt_10 (q : FmtQuirks) (c : Bool) (p : Nat) (x : ℚ) :
+    ∀ ch ∈ (fmtNumber q c p x).toList, ch = '-' ∨ ch = '.' ∨ ch.isDigit = true := by
+  obtain ⟨neg, ws, htext, _, hws, hds⟩ := fmt_text_shape q c p x
+  rw [htext]
+  intro ch hch
+  rcases List.mem_append.mp hch with h | h
+  · rcases List.mem_append.mp h with h | h
+    · cases neg <;> simp at h
+      exact Or.inl h
+    · obtain ⟨d, hd, rfl⟩ := List.mem_map.mp h
+      exact Or.inr (Or.inr (digitChar_isDigit d (hws d hd)))
+  · split at h
+    · simp at h
+    · rcases List.mem_cons.mp h with h | h
+      · exact Or.inr (Or.inl h)
+      · obtain ⟨d, hd, rfl⟩ := List.mem_map.mp h
+        exact Or.inr (Or.inr (digitChar_isDigit d (hds d hd)))
+
+/-- The integer-part digits denote the integer part. -/
+theorem fmt_whole_denotes (q : FmtQuirks) (p : Nat) (x : ℚ) :
+    ((natVal (showWhole (fracDigits q p x).2) : Nat) : ℚ) = (fracDigits q p x).2 := by
+  obtain ⟨w, hw⟩ := fracDigits_whole_nat q p x
+  rw [hw, showWhole_natCast, (decDigits_spec w).2.1]
+
+/-- SIGNIFICANT-DIGIT CAP, stated exactly.  When fractional digits are printed the
+integer part is `w = ⌊|x|⌋` itself, printed with `numDigits w` digits if `w ≥ 1`
+(a zero integer part carries no significant digit: `numDigits 0 = 0`), and
+integer digits + fractional digits ≤ 16 — EXCEPT when `w` is an exact power of ten
+`10^j`, where the code's cap `16 - ⌈log10 w⌉ = 16 - j` sits beside `j + 1` integer
+digits and up to 17 significant digits appear (`fmt_sig_cap_edge`). -/
+theorem fmt_sig_cap (p : Nat) (x : ℚ) (hd : (fracDigits fmtSpec p x).1 ≠ []) :
+    (fracDigits fmtSpec p x).2 = (ratTruncNat x : ℚ) ∧
+      (1 ≤ ratTruncNat x →
+        (showWhole (fracDigits fmtSpec p x).2).length = numDigits (ratTruncNat x)) ∧
+      numDigits (ratTruncNat x) + (fracDigits fmtSpec p x).1.length ≤ 17 ∧
+      ((∀ j, ratTruncNat x ≠ 10 ^ j) →
+        numDigits (ratTruncNat x) + (fracDigits fmtSpec p x).1.length ≤ 16) := by
+  have hw : (fracDigits fmtSpec p x).2 = (ratTruncNat x : ℚ) :=
+    fracDigits_whole_of_dec fmtSpec p x hd
+  have hl := spec_frac_len p x
+  rw [log10ceil_truncAbs] at hl
+  have hpos : 1 ≤ (fracDigits fmtSpec p x).1.length := by
+    cases h : (fracDigits fmtSpec p x).1 with
+    | nil => exact absurd h hd
+    | cons a l => simp
+  refine ⟨hw, ?_, ?_, ?_⟩
+  · intro h1
+    rw [hw, showWhole_natCast]
+    unfold numDigits; rw [if_neg (by omega)]
+  · by_cases h1 : 1 ≤ ratTruncNat x
+    · have := numDigits_le_log10ceil_succ _ h1; omega
+    · have h0 : ratTruncNat x = 0 := by omega
+      rw [h0, numDigits_zero]; omega
+  · intro hp
+    by_cases h1 : 1 ≤ ratTruncNat x
+    · rw [numDigits_eq_log10ceil _ h1 hp]; omega
+    · have h0 : ratTruncNat x = 0 := by omega
+      rw [h0, numDigits_zero]; omega
+
+/-- the power-of-ten edge is real: `1000000 + 1/3` at precision 20 prints 7 integer
+digits and 10 fractional digits — 17 significant digits (both models; the Rust code
+does the same, the Python oracle of the check uses the code's cap formula). -/
+theorem fmt_sig_cap_edge :
+    fracDigits fmtSpec 20 (1000000 + 1 / 3 : ℚ) = ([3, 3, 3, 3, 3, 3, 3, 3, 3, 3], 1000000) ∧
+      showWhole (1000000 : ℚ) = [1, 0, 0, 0, 0, 0, 0] := by
+  decide +kernel
 
 end C10
